@@ -486,6 +486,45 @@ fn noisy_build_inner(kind: u8, geom: Geom, kvs: &[Kv], mask: u8) -> Result<(Vec<
     }
 }
 
+/// Raw builder kept in use after rejected calls, with the cache counters
+/// (hook H2). `use_add`: keys go through `add` (set path), noise = smaller
+/// keys; otherwise `insert`, noise as `rejected_after(.., 31)`. Returns the
+/// bytes, whether a must-be-rejected call was accepted, and (evictions,
+/// rejections).
+pub fn noisy_build_raw_counted(geom: Geom, kvs: &[Kv], use_add: bool) -> Result<(Vec<u8>, bool, (u64, u64)), String> {
+    guard(|| {
+        let mut b = e2s(raw::Builder::verif_new_with_registry(Vec::with_capacity(256), 0, geom.0, geom.1))?;
+        let mut stray = false;
+        for (i, (k, v)) in kvs.iter().enumerate() {
+            if use_add {
+                e2s(b.add(k))?;
+            } else {
+                e2s(b.insert(k, *v))?;
+            }
+            for (rk, rv) in rejected_after(kvs, i, 31) {
+                let r = std::panic::catch_unwind(std::panic::AssertUnwindSafe(|| if use_add { if &rk == k { Err(()) } else { b.add(&rk).map_err(|_| ()) } } else { b.insert(&rk, rv).map_err(|_| ()) }));
+                match r {
+                    Ok(Err(())) => {}
+                    _ => {
+                        stray = true;
+                    }
+                }
+                if stray {
+                    break;
+                }
+            }
+            if stray {
+                return Ok((vec![], true, (0, 0)));
+            }
+        }
+        let c = b.verif_registry_counters();
+        let bytes = e2s(b.into_inner())?;
+        let ld = |i: usize| c[i].load(std::sync::atomic::Ordering::Relaxed);
+        Ok((bytes, false, (ld(0), ld(1))))
+    })
+    .and_then(|x| x)
+}
+
 fn hexs(k: &[u8]) -> String {
     k.iter().map(|b| format!("{:02x}", b)).collect()
 }
